@@ -206,3 +206,44 @@ Proof.
   destruct (run_batches_quiet tosql_cfg bs (rst0 orc) eq_refl) as [l [E [_ S]]].
   cbn [clear_stmt r_log]. rewrite E, (S eq_refl). reflexivity.
 Qed.
+
+(* ---- nested statements ---- *)
+Lemma nested_dry_log : forall c b s, c_dry c = true -> nested_send c b s = s.
+Proof. intros c b s H. unfold nested_send. rewrite H. reflexivity. Qed.
+Lemma run_nested_dry : forall c bs s, c_dry c = true -> run_nested c bs s = s.
+Proof.
+  intros c bs. induction bs as [|b r IH]; intros s H; [reflexivity|].
+  unfold run_nested in *. cbn [fold_left]. rewrite (nested_dry_log c b s H). apply IH. exact H.
+Qed.
+
+Lemma execute_nested_dry_quiet : forall c k b bf af s, c_dry c = true -> quiet c s (execute_nested c k b bf af s).
+Proof.
+  intros c k b bf af s Hd. unfold execute_nested. rewrite Hd, !run_nested_dry by exact Hd.
+  destruct (has_tx_callbacks k).
+  - eapply quiet_trans; [apply quiet_begin|]. eapply quiet_trans; [|apply quiet_commit].
+    apply quiet_refl. apply main_dry_log. exact Hd.
+  - apply quiet_refl. apply main_dry_log. exact Hd.
+Qed.
+
+Lemma nested_dry_silent : forall skip k b bf af orc,
+  forallb is_tx_event (r_log (execute_nested (dry_cfg skip) k b bf af (rst0 orc))) = true.
+Proof.
+  intros. destruct (execute_nested_dry_quiet (dry_cfg skip) k b bf af (rst0 orc) eq_refl) as [l [E [T _]]].
+  rewrite E. exact T.
+Qed.
+Lemma nested_tosql_silent : forall k b bf af orc,
+  r_log (execute_nested tosql_cfg k b bf af (rst0 orc)) = [].
+Proof.
+  intros. destruct (execute_nested_dry_quiet tosql_cfg k b bf af (rst0 orc) eq_refl) as [l [E [_ S]]].
+  rewrite E, (S eq_refl). reflexivity.
+Qed.
+
+Lemma manual_tx_dry_silent : forall skip k b orc,
+  forallb is_tx_event (r_log (manual_tx (dry_cfg skip) k b (rst0 orc))) = true.
+Proof.
+  intros skip k b orc. unfold manual_tx, call. cbn [rst0 r_or r_log app c_dry dry_cfg].
+  destruct (d_err _); [reflexivity|].
+  match goal with |- context [execute ?c k b ?s] =>
+    destruct (execute_dry_quiet c k b s eq_refl) as [l [E [T S]]] end.
+  cbn [fst r_log]. rewrite E. cbn [r_log]. rewrite (S eq_refl). reflexivity.
+Qed.
